@@ -240,11 +240,53 @@ class Gen:
         self.emit(f"addi sp, sp, {frame}", "epilogue-sp")
         self.emit("ret", "ret")
 
+    def guarded(self, f):
+        """checks its argument first and ends the whole program (exit ecall) when it is bad; returns
+        normally otherwise. Whatever follows the function in the file is not part of it."""
+        r = self.rng
+        self.stats["functions"] += 1
+        self.stats["guarded"] = self.stats.get("guarded", 0) + 1
+        ok, bad = self.fresh("gok"), self.fresh("gbad")
+        tail = r.random() < 0.5        # the abort block after the return, as the function's last lines
+
+        def abort():
+            if r.random() < 0.5:
+                self.emit(f"li a0, {r.choice([1, 2, 3])}", "abort-arg")
+                self.emit("li a7, 93", "abort-a7")
+            else:
+                self.emit("li a7, 10", "abort-a7")
+            self.emit("ecall", "abort")
+
+        self.emit(f"{f.name}:", None, indent=False)
+        if f.nargs == 0:
+            self.emit(f"li t0, {r.choice([1, 2])}", "li-temp")
+            self.emit(f"beqz t0, {bad}" if tail else f"bnez t0, {ok}", "branch")
+        else:
+            self.emit(f"{r.choice(['bltz', 'beqz', 'blez'])} a0, {bad}" if tail else
+                      f"{r.choice(['bgez', 'bnez', 'bgtz'])} a0, {ok}", "branch")
+        if not tail:
+            abort()
+            self.emit(f"{ok}:", None, indent=False)
+        if f.nargs == 0:
+            self.emit(f"addi a0, t0, {r.choice([1, 5])}", "set-result")
+        else:
+            t = r.choice(TEMPS)
+            self.emit(f"addi {t}, a0, {r.choice([1, 2, 8])}", "arith")
+            for i in range(1, f.nargs):
+                self.emit(f"{r.choice(OPS)} {t}, {t}, a{i}", "arith")
+            self.emit(f"mv a0, {t}", "set-result")
+        self.emit("ret", "ret")
+        if tail:
+            self.emit(f"{bad}:", None, indent=False)
+            abort()
+
     def any_function(self, f, callees):
         r = self.rng
         k = r.random() if self.shapes else 1.0
         if k < 0.15:
             return self.leaf(f)
+        if k < 0.23:
+            return self.guarded(f)
         if k < 0.27 and f.nargs == 1:
             return self.passthrough(f)
         if k < 0.40 and f.nargs == 2:
